@@ -131,6 +131,17 @@ def main(argv=None):
             engine_errors.append({"function": rep["target"], "error": rep["error"]})
             continue
         if rep["out_of_subset"]:
+            if getattr(pack, "REPLAY_UNKNOWN", False):
+                # the function left the verifiable subset: only a natively reproduced failing input makes this a violation
+                short = rep["target"].split("/")[-1]
+                pseudo = {"id": f"{prop}/{short}/out-of-subset", "kind": "out-of-subset", "status": "unknown", "vcs": 0, "seconds": 0.0,
+                          "backends": {}, "witness": None, "reason": "OUT-OF-SUBSET " + rep["out_of_subset"], "function": rep["target"], "loc": ""}
+                rp = do_replay(prop, pseudo, repo)
+                if rp.get("reproduced"):
+                    pseudo["status"] = "refuted"
+                    pseudo["reason"] += "; failing input found natively"
+                    obligations.append(pseudo)
+                    continue
             undecided.append({"obligation": rep["target"], "why": "OUT-OF-SUBSET " + rep["out_of_subset"]})
             continue
         info = dict(rep["info"], paths=rep["paths"], gen_seconds=round(rep["gen_seconds"], 3),
